@@ -37,7 +37,7 @@ func (mgr *Manager) Heal(heal info.Heal) {
 		mgr.event.HealStart.Emit(e)
 
 		// Get base heal amount
-		hpLost := target.MaxHP() - target.HP()
+		hpLost := target.MaxHP() - target.CurrentHP()
 		base := heal.HealValue
 		for _, k := range slices.Sorted(maps.Keys(baseHeal)) { // fixed summation order
 			v := baseHeal[k]
@@ -59,8 +59,8 @@ func (mgr *Manager) Heal(heal info.Heal) {
 		// Apply Incoming Heal Bonus of target
 		healAmount := base * (1 + source.HealBoost()) * (1 + target.GetProperty(prop.HealTaken))
 		overflow := 0.0
-		if healAmount+target.HP() > target.MaxHP() {
-			overflow = healAmount + target.HP() - target.MaxHP()
+		if healAmount+target.CurrentHP() > target.MaxHP() {
+			overflow = healAmount + target.CurrentHP() - target.MaxHP()
 			healAmount -= overflow
 		}
 
